@@ -72,7 +72,7 @@ def worker(ctx):
             try:
                 files = root.all_files()
                 for g in files:
-                    p = Printer(g, rng=rng, comments=0.2, blanks=0.2, semi=0.3)
+                    p = Printer(g, rng=rng, comments=0.2, blanks=0.2, semi=0.3, typedef=0.0)
                     texts[g.filename] = p.render()
                     printers[g.basename] = p
             except Exception as e:
